@@ -32,8 +32,9 @@ PROPS = {
         "text": "every proper prefix of a chunk is eof (proved); exhaustive cut positions on real archives",
     },
     "C13": {
-        "lean": ["PnaVerif.Props.Consts", "PnaVerif.Props.C13"],
-        "families": ["chunk", "parse"],
+        "lean": ["PnaVerif.Props.Consts", "PnaVerif.Props.C13", "PnaVerif.Props.C13Entry"],
+        "families": ["chunk", "parse", "entry", "edit"],
+        "cli": True,
         "trusted": COMMON_TRUST,
         "text": "chunk encode/decode exact inverses (proved); raw items compared chunk for chunk",
     },
@@ -85,5 +86,12 @@ PROPS = {
         "families": ["split"],
         "trusted": COMMON_TRUST,
         "text": "size limit, losslessness, termination/rejection proved for all archives and all maxima; split family: every max around the overhead on real archives, parts re-read",
+    },
+    "C10": {
+        "lean": ["PnaVerif.Props.Consts", "PnaVerif.Props.C10"],
+        "families": ["edit"],
+        "cli": True,
+        "trusted": COMMON_TRUST + ["globset (selection) and the system user database (chown) enter as oracle answers", "clap argument parsing"],
+        "text": "per-command spec (frame+target+order) and idempotence proved over the transform model for both solid strategies; real pna editing runs compared with the model and with a frame/target/idempotence oracle",
     },
 }
